@@ -292,7 +292,7 @@ func (ps paramSingle) Build(c containerStore) (reflect.Value, error) {
 
 		// If we're missing dependencies but the parameter itself is optional,
 		// we can just move on.
-		if errors.As(err, new(errMissingDependencies)) && ps.Optional {
+		if missingDependencies(err) && ps.Optional {
 			return reflect.Zero(ps.Type), nil
 		}
 
@@ -307,6 +307,25 @@ func (ps paramSingle) Build(c containerStore) (reflect.Value, error) {
 	// container.
 	v, _ = providingContainer.getValue(ps.Name, ps.Type)
 	return v, nil
+}
+
+// missingDependencies reports whether err says that the dependencies of a
+// constructor are unavailable. Only the links dig itself created are followed:
+// the error a constructor returned is never searched, whatever it wraps.
+func missingDependencies(err error) bool {
+	for err != nil {
+		if _, ok := err.(errMissingDependencies); ok {
+			return true
+		}
+		if _, ok := err.(errConstructorFailed); ok {
+			return false
+		}
+		if _, ok := err.(digError); !ok {
+			return false
+		}
+		err = errors.Unwrap(err)
+	}
+	return false
 }
 
 // paramObject is a dig.In struct where each field is another param.
